@@ -7,7 +7,7 @@ for id in "$@"; do
   out=$(cd /verif && ./check $id --tier quick 2>&1); code=$?
   echo "== $id exit=$code"; echo "$out" | grep -E "VIOLATION|violation:|regression case|HARNESS|quick:" | cut -c1-330
 done
-git -C /repo checkout -- . ; git -C /repo status --short | head -3
+git -C /repo checkout -- . ; git -C /repo clean -fdq crates; git -C /repo status --short | head -3
 # evidence written while the change was applied does not describe the unchanged tree: restore it
 git -C /verif checkout -- evidence 2>/dev/null
 (cd /verif/harness && cargo build --release --offline >/dev/null 2>&1)
